@@ -92,8 +92,45 @@ def current(specs):
     return out
 
 
+def _all_specs(path):
+    """Every function, method and module-level assignment of a file as specs."""
+    tree = _module(path)
+    out = []
+    if tree is None:
+        return out
+    for n in tree.body:
+        if isinstance(n, ast.FunctionDef):
+            out.append('%s:%s' % (path, n.name))
+        elif isinstance(n, ast.ClassDef):
+            for f in n.body:
+                if isinstance(f, ast.FunctionDef):
+                    out.append('%s:%s.%s' % (path, n.name, f.name))
+        elif isinstance(n, ast.Assign):
+            for t in n.targets:
+                if isinstance(t, ast.Name):
+                    out.append('%s:%s' % (path, t.id))
+    return out
+
+
+def with_neighbours(specs):
+    """The listed specs plus everything else defined in the same files (changes next to a modelled
+    function - a helper, a module constant - also raise the sampling budget)."""
+    files = sorted(set(s.split(':')[0] for s in specs))
+    extra = []
+    for f in files:
+        extra += _all_specs(f)
+    return sorted(set(specs) | set(extra))
+
+
 def compare(specs):
     gold = json.load(open(GOLDEN)) if os.path.exists(GOLDEN) else {}
+    listed = set(specs)
+    specs = [s for s in with_neighbours(specs) if s in listed or s in gold]
+    # a definition that is new in the file has no golden entry: treat as changed neighbour
+    for f in sorted(set(s.split(':')[0] for s in listed)):
+        for s2 in _all_specs(f):
+            if s2 not in gold and s2 not in specs:
+                specs.append(s2)
     cur = current(specs)
     changed, hot_i, hot_f = [], [], []
     for s in specs:
@@ -126,9 +163,10 @@ def update():
         except ModuleNotFoundError:
             continue
         specs += getattr(mod, 'FUNCTIONS', [])
-    specs = sorted(set(specs))
+    listed = sorted(set(specs))
+    specs = with_neighbours(listed)
     cur = current(specs)
-    missing = [s for s in specs if cur[s]['hash'] is None]
+    missing = [s for s in listed if cur[s]['hash'] is None]
     if missing:
         print('fingerprint: NOT FOUND in source:', missing)
     os.makedirs(os.path.dirname(GOLDEN), exist_ok=True)
